@@ -96,10 +96,15 @@ func (a *aggregatedLabels) Key() logqlmetric.GroupingKey {
 		_, _ = h.Write(length[:])
 		_, _ = h.WriteString(s)
 	}
+	empty := true
 	a.forEach(func(k, v string) {
+		empty = false
 		writeString(k)
 		writeString(v)
 	})
+	if empty {
+		return logqlmetric.EmptyGroupingKey
+	}
 	return h.Sum64()
 }
 
